@@ -214,7 +214,9 @@ func cmdCheck(args []string) int {
 		}
 	}
 	nwit := cfg.Witnesses
-	if nwit == 0 {
+	if nwit < 0 {
+		nwit = 0
+	} else if nwit == 0 {
 		nwit = 3
 		if tier == "thorough" {
 			nwit = 12
@@ -269,6 +271,9 @@ func cmdCheck(args []string) int {
 			out, _ := nb.run(caseKey(cf.spec.Harness, cf.spec.Args), vec, 60*time.Second)
 			o := parseNative(out)
 			ok, why = confirmFinding(f, o)
+			if os.Getenv("VX_DEBUG") != "" {
+				fmt.Printf("DEBUG rep %d ok=%v why=%s races=%d len=%d tops=%v\n", r, ok, why, strings.Count(out, "DATA RACE"), len(out), raceTopFrames(out))
+			}
 			if !ok && f.Kind != "RACE" {
 				why += " | native output tail: " + tail(out, 400)
 			}
